@@ -16,6 +16,44 @@ var replayScannerSrc string
 //go:embed replay_repeat_test.go.tmpl
 var replayRepeatSrc string
 
+//go:embed replay_faults_test.go.tmpl
+var replayFaultsSrc string
+
+// replayFaults: C03 - build single-fault documents with the real code (injected test in package kit) and report a
+// document whose fault is accepted or located on another line.
+func replayFaults(eng *Engine) string {
+	return runKitReplay(eng, replayFaultsSrc, "zz_govc_faults_test.go", "TestGovcFaultReplay", "single-fault documents on the real builder (package kit):")
+}
+
+func runKitReplay(eng *Engine, src, file, test, title string) string {
+	tmp, err := os.MkdirTemp("", "govcreplay")
+	if err != nil {
+		return ""
+	}
+	defer os.RemoveAll(tmp)
+	testFile := filepath.Join(tmp, file)
+	_ = os.WriteFile(testFile, []byte(src), 0o644)
+	ov := map[string]map[string]string{"Replace": {filepath.Join(eng.repo, "kit", file): testFile}}
+	ovb, _ := json.Marshal(ov)
+	ovFile := filepath.Join(tmp, "overlay.json")
+	_ = os.WriteFile(ovFile, ovb, 0o644)
+	cmd := exec.Command("go", "test", "-overlay", ovFile, "-vet=off", "-count=1", "-timeout", "300s", "-v", "-run", test, "./kit")
+	cmd.Dir = eng.repo
+	cmd.Env = append(os.Environ(), "GOFLAGS=-mod=mod", "GOPROXY=off", "GOSUMDB=off", "GOTOOLCHAIN=local",
+		"GOVC_REPO_TESTDATA="+filepath.Join(eng.repo, "testdata"))
+	outB, _ := cmd.CombinedOutput()
+	var keep []string
+	for _, l := range strings.Split(string(outB), "\n") {
+		if strings.HasPrefix(l, "GOVC ") {
+			keep = append(keep, l[5:])
+		}
+	}
+	if len(keep) == 0 {
+		return "replay harness produced no result:\n" + string(outB)
+	}
+	return title + "\n" + strings.Join(keep, "\n") + "\n"
+}
+
 // replayRepeat: C16 - run the real accessors in every history of length 3 over built-in documents and the positive
 // documents of /repo/testdata (injected test in package kit) and report a document on which a method's bytes change.
 func replayRepeat(eng *Engine) string {
